@@ -42,6 +42,7 @@ type WinCfg struct {
 	YieldP   float64 `json:"yield_p"`
 	ISSPlace int     `json:"iss_place"` // C14: 0 none, 1 stack just below 2^31, 2 stack just below 2^32, 3/4 peer likewise
 	ISSBack  int     `json:"iss_back"`
+	Cookie   bool    `json:"syn_cookies,omitempty"`   // passive open through the SYN-cookie path (listener in flood mode)
 	ISSMid   bool    `json:"iss_mid_space,omitempty"` // the neutral twin of a C14 run: same placement, counted back from mid-space values
 }
 
@@ -57,7 +58,7 @@ func (scWindow) NeutralISS(raw json.RawMessage) json.RawMessage { return neutral
 
 func genWinCfg(rng *sim.Rand, tier string) WinCfg {
 	c := WinCfg{Role: rng.Intn(2), V6: rng.Chance(0.3), MTU: []int{576, 1280, 1500, 1500, 9000}[rng.Intn(5)],
-		PeerMSS: []int{-1, 1, 88, 536, 1460, 1460, 65535}[rng.Intn(7)], PeerWS: []int{-1, -1, 0, 1, 4, 7, 14}[rng.Intn(7)],
+		PeerMSS: []int{-1, 1, 88, 536, 1000, 1400, 1460, 1460, 65535}[rng.Intn(9)], PeerWS: []int{-1, -1, 0, 1, 4, 7, 14}[rng.Intn(7)],
 		TS: rng.Chance(0.5), SACK: rng.Chance(0.5), CC: "reno", Passive: rng.Chance(0.4), MaxSteps: rng.Range(20, 200)}
 	if c.V6 && c.MTU < 1280 {
 		c.MTU = 1280
@@ -73,6 +74,7 @@ func genWinCfg(rng *sim.Rand, tier string) WinCfg {
 	if tier == "thorough" {
 		c.MaxSteps = rng.Range(50, 600)
 	}
+	c.Cookie = c.Passive && rng.Chance(0.3)
 	return c
 }
 
@@ -281,7 +283,11 @@ func (w *winWorld) observeSender() {
 			w.Fail("sent-beyond-window", "", "data segment [%d,%d) (stream offsets) reaches beyond %d, the largest right edge the peer has ever offered (window scale %d)", off, end, w.edge, w.ws)
 		}
 		if len(t.Payload) > w.mssLimit {
-			w.Fail("segment-exceeds-mss", "", "data segment carries %d bytes, the peer's maximum segment size is %d", len(t.Payload), w.mssLimit)
+			why := ""
+			if w.cfg.Cookie && w.mssLimit < 536 && len(t.Payload) <= 536 {
+				why = " [SYN-cookie handshake: the peer's value is below the smallest one a cookie can encode, 536, which the stack uses instead]"
+			}
+			w.Fail("segment-exceeds-mss", "", "data segment carries %d bytes, the peer's maximum segment size is %d%s", len(t.Payload), w.mssLimit, why)
 		}
 		lim := int(w.S.Link.mtu)
 		if w.mtuLimit > 0 && w.mtuLimit < lim {
@@ -559,6 +565,20 @@ func (w *winWorld) receiverStep(s Step) {
 				n = int(w.sent - off)
 			}
 			p.Send(codec.FlagACK|codec.FlagPSH, p.ISS+1+uint32(off), p.RcvNxt, 65535, nil, mk(off, n, false))
+		case 4: // in order, starting inside the window and reaching beyond its right edge (true content: a receiver may keep more than it promised; only data wholly outside the window is forbidden)
+			if !w.haveEdge || room <= 0 || room > 1400 {
+				return
+			}
+			over := 1 + s.C%1500
+			// the 16-bit field shows the edge rounded down by up to 2^scale-1: those bytes may be
+			// inside the real window and carry true content; everything behind them is beyond it
+			in := int(room) + 1<<uint(w.sws)
+			seg := mk(w.sent, in+over, false)
+			p.Send(codec.FlagACK|codec.FlagPSH, p.ISS+1+uint32(w.sent), p.RcvNxt, 65535, nil, seg)
+			if e := w.sent + int64(in+over); e > w.maxSent {
+				w.maxSent = e
+			}
+			w.Probes["segments_straddling_the_right_edge"]++
 		case 3: // out of order but inside the window (true content); the gap is filled by later in-order data
 			if room <= int64(n)+10 {
 				return
@@ -570,6 +590,11 @@ func (w *winWorld) receiverStep(s Step) {
 			}
 			w.Probes["out_of_order_segments"]++
 		}
+	case "rcvbuf":
+		// the application resizes its receive buffer: whatever was promised stays promised
+		w.ep.SetSockOpt(tcpip.ReceiveBufferSizeOption([]int{256, 1024, 4096, 65536, 1 << 20}[s.A%5]))
+		w.Settle()
+		w.Probes["receive_buffer_resized"]++
 	case "read":
 		w.readOne()
 	case "drain":
@@ -630,10 +655,12 @@ func (w *winWorld) receiverStep(s Step) {
 
 func (w *winWorld) receiverNext() Step {
 	r := w.Rng
-	switch r.Pick(10, 6, 2, 1, 2) {
+	switch r.Pick(10, 6, 2, 1, 2, 1) {
+	case 5:
+		return Step{Op: "rcvbuf", A: r.Intn(5)}
 	case 0:
 		lens := []int{1, 2, 100, 536, 1000, 1400}
-		return Step{Op: "data", A: r.Pick(8, 3, 2, 3), B: lens[r.Intn(len(lens))], C: r.Intn(100000)}
+		return Step{Op: "data", A: r.Pick(8, 3, 2, 3, 1), B: lens[r.Intn(len(lens))], C: r.Intn(100000)}
 	case 1:
 		return Step{Op: "read"}
 	case 2:
@@ -648,6 +675,11 @@ func (scWindow) Run(t *testing.T, prop string, seed uint64, cfgRaw json.RawMessa
 	var cfg WinCfg
 	json.Unmarshal(cfgRaw, &cfg)
 	o := &RunOut{Cfg: cfgRaw}
+	savedThreshold := tcp.SynRcvdCountThreshold
+	defer func() { tcp.SynRcvdCountThreshold = savedThreshold }()
+	if cfg.Cookie {
+		tcp.SynRcvdCountThreshold = 0
+	}
 	bubble(t, func() {
 		w := &winWorld{PeerWorld: NewPeerWorld(seed, uint32(cfg.MTU), NodeOpts{SACK: cfg.SACK, CC: cfg.CC}), cfg: cfg}
 		defer w.Close()
